@@ -421,6 +421,10 @@ func (n *ReconcileNode) syncWithAPI(ctx context.Context, node *networkv1beta1.No
 					case aliyunClient.ENIStatusAvailable:
 						l.Info("delete eni not found in remote, but in cr", "eni", id)
 						err = n.aliyun.DeleteNetworkInterfaceV2(ctx, id)
+						if err != nil {
+							// the eni is not attached any more, do not use it, the gc will delete it
+							node.Status.NetworkInterfaces[id].Status = aliyunClient.ENIStatusDeleting
+						}
 					case aliyunClient.ENIStatusInUse:
 						// ignore eni used by other instance
 					default:
